@@ -87,7 +87,8 @@ def alloc_sub(chk, rng, w, wid, mode, plan=None):
         kw["disperse_rounding_error"] = ["b", True]
     body = [{"id": "q", "k": "q", "e": Q(enc_amount(rng, x, ("D", "F"))[0], u)},
             {"k": "r", "e": ["m", V("q"), "allocate", args, kw]},
-            {"k": "after", "e": V("q")}]
+            {"k": "after", "e": V("q")},
+            {"k": "again", "e": ["m", V("q"), "allocate", args, kw]}]
     steps = [{"setmode": mode, "body": body}]
     info = dict(world=wid, unit=u, x=str(x), ratios=[str(v) for v in rvals],
                 rkind=rkind, disperse=disperse, mode=mode)
@@ -131,6 +132,18 @@ def alloc_sub(chk, rng, w, wid, mode, plan=None):
         if after.get("k") != "Q" or val(after) != xs or after["u"] != qo["u"]:
             bad.append("the original changed: %s -> %s" %
                        (brief(qo), brief(after)))
+        again = obs.get("again", {})
+        if again.get("k") == "T" and again["items"][0].get("k") == "T":
+            chk.count("allocation repeated on the same object")
+            a1 = [(p["a"], p["u"]) for p in portions] + [rem["a"]]
+            a2 = [(p.get("a"), p.get("u"))
+                  for p in again["items"][0]["items"]] + \
+                [again["items"][1].get("a")]
+            if a1 != a2:
+                bad.append("a second allocate() on the same quantity gives "
+                           "another result")
+        else:
+            bad.append("second allocate() failed: %s" % brief(again))
         total = sum((val(p) for p in portions), F(0)) + val(rem)
         if total != xs:
             bad.append("portions + remainder = %s, original %s" % (total, xs))
